@@ -68,7 +68,16 @@ def run(c):
         r = guarded(lambda: float(irr.compute_ts(a)))
         return {"r": list(r), "unmodified": bool((a == a0).all())}
     if c["f"] == "sim":
-        a = np.array(c["m"]); a0 = a.copy()
+        a = np.array(c["m"])
+        # the ratings as the caller holds them: C order, Fortran order (e.g. the transpose of an items x raters table), strided rows
+        lay = (len(c["m"]) + len(c["m"][0]) + c["num_perm"]) % 4
+        if lay == 1:
+            a = np.asfortranarray(a)
+        elif lay == 2:
+            a = np.ascontiguousarray(a.T).T
+        elif lay == 3:
+            buf = np.zeros((2 * a.shape[0], a.shape[1]), dtype=a.dtype); buf[::2] = a; a = buf[::2]
+        a0 = a.copy()
         ov = OV[c["ov"]] if c["ov"] != "actual" else float(exact_ts(c["m"]))
         rec = []
         orig = irr.compute_ts
